@@ -585,11 +585,7 @@ func c17IPP(c *Ctx) {
 			continue
 		}
 		// encoder ops for ONE value: calls in the loop body if there is a loop, else all
-		type op struct {
-			pos token.Pos
-			k   string
-		}
-		var eops []op
+		var eops []ippOp
 		hasLoop := false
 		for _, call := range Calls(ef) {
 			if InLoop(call.Block()) {
@@ -598,26 +594,25 @@ func c17IPP(c *Ctx) {
 		}
 		for _, call := range Calls(ef) {
 			cc := call.Common()
-			if !cc.IsInvoke() {
+			if hasLoop && !InLoop(call.Block()) {
 				continue
 			}
-			if k := kindOf(cc.Method.Name()); k != "" && (!hasLoop || InLoop(call.Block())) {
-				eops = append(eops, op{call.Pos(), k})
+			if !cc.IsInvoke() {
+				// a helper that is handed the encoder (writeValueHeader(buf, tag, name, z)): its writes, in order, at the call
+				if cv, isCall := call.(*ssa.Call); isCall {
+					if hops, _, isH := decoderHelperOps(cv, kindOf); isH {
+						for _, k := range hops {
+							eops = append(eops, ippOp{call.Pos(), k, call.Block(), "helper:" + FuncShort(cv.Call.StaticCallee())})
+						}
+					}
+				}
+				continue
+			}
+			if k := kindOf(cc.Method.Name()); k != "" {
+				eops = append(eops, ippOp{call.Pos(), k, call.Block(), cc.Method.Name()})
 			}
 		}
-		sort.Slice(eops, func(i, j int) bool { return eops[i].pos < eops[j].pos })
-		// collapse alternative branches (if val {WriteUint8(1)} else {WriteUint8(0)}): consecutive identical ops in different blocks at the same nesting are one op
-		var es []string
-		var lastBlocks []*ssa.BasicBlock
-		_ = lastBlocks
-		seenPosKind := map[string]bool{}
-		for _, call := range Calls(ef) {
-			_ = call
-		}
-		for _, o := range eops {
-			es = append(es, o.k)
-		}
-		es = collapseAlternatives(ef, es)
+		es := collapseOps(eops)
 		// decoder ops for the first value: straight-line prefix in the entry block
 		var dops []string
 		// the peek: a Byte() whose result (possibly through a phi) is compared with the value's tag
@@ -676,7 +671,6 @@ func c17IPP(c *Ctx) {
 		if multi {
 			want = append(want, "8") // peek of the next tag
 		}
-		_ = seenPosKind
 		c.Check(strings.Join(dops, " ") == strings.Join(want, " "), "ipp-value-codec", name+" first value", p.Pos(df.Pos()), "decode reads ["+strings.Join(dops, " ")+"] mirroring encode ["+strings.Join(es, " ")+"]", name+".encode writes per value ["+strings.Join(es, " ")+"] (bit widths; D = length-prefixed data) but "+name+".decode starts by reading ["+strings.Join(dops, " ")+"], expected ["+strings.Join(want, " ")+"]: a field is read with the wrong width and everything after it is misaligned")
 		if !multi {
 			continue
@@ -805,79 +799,29 @@ func c17IPP(c *Ctx) {
 	c17Handler(c)
 }
 
-// collapseAlternatives merges ops that sit in the two arms of one if/else (same kind) into one.
-func collapseAlternatives(fn *ssa.Function, ops []string) []string {
-	// detect the pattern by counting calls per kind in blocks that are siblings (same single predecessor, not dominating each other)
-	type site struct {
-		b *ssa.BasicBlock
-		k string
-	}
+// ippOp is one encoder/decoder operation at a call site.
+type ippOp struct {
+	pos  token.Pos
+	k    string // "8", "16", "32", "D"
+	b    *ssa.BasicBlock
+	name string
+}
+
+// collapseOps orders the operations by position and merges the twin that sits in the other arm of an if/else
+// (`if val { WriteUint8(1) } else { WriteUint8(0) }`: same operation, sibling blocks) into one.
+func collapseOps(ops []ippOp) []string {
+	sort.SliceStable(ops, func(i, j int) bool { return ops[i].pos < ops[j].pos })
 	var out []string
-	var sites []site
-	for _, call := range Calls(fn) {
-		cc := call.Common()
-		if !cc.IsInvoke() {
-			continue
-		}
-		sites = append(sites, site{call.Block(), cc.Method.Name()})
-	}
-	skip := map[int]bool{}
-	idx := 0
-	var keep []site
-	for _, s := range sites {
-		keep = append(keep, s)
-	}
-	_ = keep
-	for i := 0; i < len(ops); i++ {
-		out = append(out, ops[i])
-		idx++
-	}
-	// simple rule sufficient for the repository's idiom: two consecutive identical ops whose call sites are in sibling blocks
-	var res []string
-	for i := 0; i < len(out); i++ {
-		if skip[i] {
-			continue
-		}
-		res = append(res, out[i])
-	}
-	// find sibling duplicates
-	var callsInOrder []ssa.CallInstruction
-	for _, call := range Calls(fn) {
-		if call.Common().IsInvoke() && InLoop(call.Block()) {
-			callsInOrder = append(callsInOrder, call)
-		}
-	}
-	sort.Slice(callsInOrder, func(i, j int) bool { return callsInOrder[i].Pos() < callsInOrder[j].Pos() })
-	var final []string
-	for i, call := range callsInOrder {
-		name := call.Common().Method.Name()
-		k := ""
-		switch {
-		case strings.HasSuffix(name, "Uint8"):
-			k = "8"
-		case strings.HasSuffix(name, "Uint16"):
-			k = "16"
-		case strings.HasSuffix(name, "Uint32"):
-			k = "32"
-		case strings.HasSuffix(name, "Data"):
-			k = "D"
-		}
-		if k == "" {
-			continue
-		}
+	for i, o := range ops {
 		if i > 0 {
-			prev := callsInOrder[i-1]
-			pb, cb := prev.Block(), call.Block()
-			if pb != cb && !pb.Dominates(cb) && !cb.Dominates(pb) && prev.Common().Method.Name() == name {
-				continue // the else-arm twin of the previous op
+			pv := ops[i-1]
+			if pv.b != o.b && pv.b != nil && o.b != nil && !pv.b.Dominates(o.b) && !o.b.Dominates(pv.b) && pv.name == o.name && pv.k == o.k {
+				continue
 			}
 		}
-		final = append(final, k)
+		out = append(out, o.k)
 	}
-	if len(final) == 0 {
-		return res
-	}
-	return final
+	return out
 }
 
 func c17Handler(c *Ctx) {
@@ -1065,18 +1009,14 @@ func decoderHelperOps(call *ssa.Call, kindOf func(string) string) (ops []string,
 	}
 	hasDec := false
 	for _, a := range call.Call.Args {
-		if n := NamedOf(a.Type()); n != nil && n.Obj().Name() == "Decoder" {
+		if n := NamedOf(a.Type()); n != nil && (n.Obj().Name() == "Decoder" || n.Obj().Name() == "EncoderType") {
 			hasDec = true
 		}
 	}
 	if !hasDec {
 		return nil, false, false
 	}
-	type op struct {
-		pos token.Pos
-		k   string
-	}
-	var hops []op
+	var hops []ippOp
 	for _, b := range hf.Blocks {
 		if InLoop(b) {
 			return nil, false, false
@@ -1088,16 +1028,12 @@ func decoderHelperOps(call *ssa.Call, kindOf func(string) string) (ops []string,
 			}
 			if c2.Call.IsInvoke() {
 				if k := kindOf(c2.Call.Method.Name()); k != "" {
-					hops = append(hops, op{c2.Pos(), k})
+					hops = append(hops, ippOp{c2.Pos(), k, b, c2.Call.Method.Name()})
 				}
 			} else if bi, isB := c2.Call.Value.(*ssa.Builtin); isB && bi.Name() == "append" {
 				commits = true
 			}
 		}
 	}
-	sort.Slice(hops, func(i, j int) bool { return hops[i].pos < hops[j].pos })
-	for _, o := range hops {
-		ops = append(ops, o.k)
-	}
-	return collapseAlternatives(hf, ops), commits, true
+	return collapseOps(hops), commits, true
 }
